@@ -341,6 +341,22 @@ def run(ctx):
                 ok = ok or ((a[1] < b[1]) if a[0] == b[0] else a[0] in cfg.dominators().get(b[0], ()))
         ctx.ob("R15.7", "expand_manifests|%s|after-insert" % callee_short(c), ok, em.loc(c),
                "%s(…, %s) runs %s %s.insert(manifest)" % (callee_short(c), arg["n"] if arg else "?", "after" if ok else "WITHOUT a preceding", arg["n"] if arg else "the ignore set"))
+    # ... and that local must START as a copy of the set this call was given: the macros already being expanded further out
+    # stay excluded (A -> B -> A must stop at the second A)
+    ign_param = [p for p in em.params if "Ignores" in p["t"]]
+    for c in recs:
+        arg = local_ref(c["a"][-1]) if c.get("a") else None
+        inherits = False
+        if arg is not None and ign_param:
+            for y in em.walk():
+                if y.get("k") == "decls":
+                    for dd in y["d"]:
+                        if dd.get("d") == arg["d"] and dd.get("init") is not None:
+                            inherits = any((z.get("d") == ign_param[0]["d"]) for z in walk(dd["init"]) if z.get("k") == "ref")
+            if arg.get("d") == ign_param[0]["d"]:
+                inherits = True
+        ctx.ob("R15.7", "expand_manifests|%s|inherits-outer-ignore-set" % callee_short(c), inherits, em.loc(c),
+               "the set handed to %s() %s the caller's `%s`" % (callee_short(c), "starts from" if inherits else "does NOT include", ign_param[0]["n"] if ign_param else "?"))
     # the manifest looked up must not be in the ignore set
     ok = any(c.get("k") == "call" and callee_short(c) == "count" and (local_ref(c.get("this")) or {}).get("dk") == "param" for c in em.walk())
     ctx.ob("R15.7", "expand_manifests|consults-ignore-set", ok, em.loc(), "a manifest in the ignore set is not expanded again")
